@@ -165,6 +165,19 @@ def answerCtx : HookAns → RCtx
   | .ioError => .hookNotAvailable
   | .junk => .hookNotAvailable
 
+/-- The hook outcomes that refuse the restart (property C12: "not required, not possible, failed, raising"):
+the hook returns `RestartContextRestartNotRequired` / `RestartContextRestartNotPossible` /
+`RestartContextHookFailed`, returns `False` (old interface: "not required") or raises an exception that is not an
+IOError ("Will consider it RestartContextHookFailed").  `possible` / `True` allow the restart; `IOError`, the
+answer `RestartContextHookNotAvailable` and junk values are documented as "no specific hook: vanilla restart". -/
+def HookAns.refuses : HookAns → Bool
+  | .ctx .notRequired => true
+  | .ctx .notPossible => true
+  | .ctx .hookFailed => true
+  | .no => true
+  | .raises => true
+  | _ => false
+
 /-- `DLMESORestart` on a working directory whose `CONTROL` file is absent or well formed -/
 def dlmeso (r : Reason) (control : Bool) : HookAns :=
   if r ≠ .resourceExhausted then .no else if control then .yes else .ioError
@@ -199,6 +212,13 @@ def engineRestart (c : Cfg) (s : St) (i : Inp) : St × Option Code :=
     | .scripted => launch s1 i (answerCtx i.hook)
     | .fallback => launch s1 i (answerCtx (dlmeso i.reason i.control))
   else launch s i .conditionsNotMet
+
+/-- the hook module's `Restart` is called by `Engine.restart` on state `s` (the state when the restart is
+attempted): budget left, no simulated restart, the exit is not a failed submission, the reason is listed and the
+module imported fine -/
+def engineAsksHook (c : Cfg) (s : St) (i : Inp) : Bool :=
+  budgetLeft c s && !(c.simulator && decide (i.reason ∈ c.hookOn)) && decide (i.reason ≠ .submissionFailed) &&
+    decide (i.reason ∈ c.hookOn) && decide (c.hookModule = .scripted)
 
 /-- explicit `maxRestarts` budget of the repaired `RepeatingEngine.restart` -/
 def repeatingBudgetLeft (c : Cfg) (s : St) : Bool :=
@@ -254,6 +274,11 @@ def ctrlRestartOld (c : Cfg) (s : St) (i : Inp) : St × Code :=
     if i.stable then (s, .couldNotInitiate) else guarded (compRestart true c s i)
   else (s, .couldNotInitiate)
 
+/-- the scripted hook is asked while `Controller._restartComponent` handles the exit on state `s`: the
+`restartHookOn` branch reaches `ComponentState.restart` (engine not shut down) and a plain `Engine` asks it -/
+def ctrlAsksHook (c : Cfg) (s : St) (i : Inp) : Bool :=
+  !s.shutdown && !c.repeating && engineAsksHook c s i
+
 /-- the task exits with `reason` (`Engine._setExitReason`; a RepeatingEngine has no such reset) -/
 def exit (c : Cfg) (s : St) (r : Reason) : St :=
   if !c.repeating && decide (r = .success) then { s with resub := 0 } else s
@@ -275,6 +300,9 @@ def stepGen (arr : Cfg → St → Inp → St) (ctrl : Cfg → St → Inp → St 
     (i : Inp) : St × Code :=
   let r := ctrl c (arr c s i) i
   if fin && decide (r.2 ≠ .initiated) then ({ r.1 with shutdown := true }, r.2) else r
+
+/-- the hook is asked during this step (the exit itself does not change what the decision reads) -/
+def stepAsksHook (c : Cfg) (s : St) (i : Inp) : Bool := ctrlAsksHook c (arrive c s i) i
 
 def stepWith (ctrl : Cfg → St → Inp → St × Code) := stepGen arrive ctrl
 
